@@ -13,10 +13,22 @@ from pathlib import Path
 
 VERIF = Path(__file__).resolve().parent.parent
 WORK = VERIF / "work"
+CACHE = WORK / "cache"          # model-checking results / behaviour dumps (independent of the code)
 HARNESS = VERIF / "harness"
 SPEC = VERIF / "spec"
 REPLAYS = VERIF / "replays"
 EVIDENCE = VERIF / "evidence"
+# Development aid: VERIF_REPO=<worktree> runs the very same checks against another checkout of
+# mitsuhiko/similar (a scratch worktree with a seeded or benign change) without touching /repo,
+# /verif/evidence or /verif/replays.  The registered commands never set it.
+ALT_REPO = os.environ.get("VERIF_REPO")
+if ALT_REPO:
+    import hashlib as _h
+    _tag = _h.sha1(ALT_REPO.encode()).hexdigest()[:8]
+    WORK = VERIF / "work" / ("alt_" + _tag)
+    HARNESS = WORK / "harness"
+    REPLAYS = WORK / "replays"
+    EVIDENCE = WORK / "evidence"
 JAVA_CP = "/opt/veriftools/tla/tla2tools.jar:/opt/veriftools/tla/CommunityModules-deps.jar"
 TLA_LIB = ":".join(str(SPEC / d) for d in ("abstract", "impl", "trace", "mc"))
 NCPU = os.cpu_count() or 4
@@ -36,8 +48,20 @@ def sv_path(nounicode=False):
     return HARNESS / ("target-nounicode" if nounicode else "target") / "release" / "sv"
 
 
+def _prepare_alt_harness():
+    src = VERIF / "harness"
+    HARNESS.mkdir(parents=True, exist_ok=True)
+    shutil.copytree(src / "src", HARNESS / "src", dirs_exist_ok=True)
+    shutil.copytree(src / ".cargo", HARNESS / ".cargo", dirs_exist_ok=True)
+    shutil.copy(src / "Cargo.lock", HARNESS / "Cargo.lock")
+    toml = (src / "Cargo.toml").read_text().replace('path = "/repo"', f'path = "{ALT_REPO}"')
+    (HARNESS / "Cargo.toml").write_text(toml)
+
+
 def build_harness(nounicode=False):
     """(Re)build the harness against the current /repo working tree."""
+    if ALT_REPO:
+        _prepare_alt_harness()
     HARNESS.mkdir(exist_ok=True)
     lock = open(HARNESS / ".build.lock", "w")
     fcntl.flock(lock, fcntl.LOCK_EX)
@@ -236,7 +260,7 @@ def tlc_dump(spec_path, cfg_path, tag, workers=4, timeout=3000):
     """P3: run TLC on a dump configuration (an invariant prints one JSON line per
     terminal state) and return (ndjson path, stats).  The dump does not depend on
     /repo, so it is cached under work/cache keyed by the hash of all specs + cfg."""
-    cache = WORK / "cache"
+    cache = CACHE
     cache.mkdir(parents=True, exist_ok=True)
     key = spec_hash(cfg_path) + "_" + Path(cfg_path).stem
     out_path = cache / (key + ".ndjson")
@@ -272,7 +296,7 @@ def tlc_dump(spec_path, cfg_path, tag, workers=4, timeout=3000):
 
 def tlc_mc_cached(spec_path, cfg_path, tag, workers=8, timeout=3000, coverage=True):
     """P2 with a cache keyed by the hash of all specs + cfg (the model does not depend on /repo)."""
-    cache = WORK / "cache"
+    cache = CACHE
     cache.mkdir(parents=True, exist_ok=True)
     meta_path = cache / (spec_hash(cfg_path) + "_" + Path(cfg_path).stem + ".mc.json")
     lock = open(cache / (".lock_" + Path(cfg_path).stem), "w")
